@@ -184,6 +184,18 @@ func execClearsignOne(vec J, out *Writer, echo J) {
 		b = append(b, []byte("\n"+foreignPara)...)
 	case "second_block":
 		b = append(b, clearSign(key("k2"), []byte(foreignPara))...)
+	case "ws_blank_sp", "ws_blank_tab":
+		// a blank (which an OpenPGP cleartext signature does not cover: trailing white space is not hashed) is put on
+		// the first EMPTY line of the signed text, i.e. on a paragraph separator
+		ws := map[string]string{"ws_blank_sp": " ", "ws_blank_tab": "\t"}[mut["op"].(string)]
+		start := bytes.Index(b, []byte("\n\n")) // end of the armor headers
+		end := bytes.Index(b, []byte("-----BEGIN PGP SIGNATURE-----"))
+		if start >= 0 && end > start {
+			if i := bytes.Index(b[start+2:end], []byte("\n\n")); i >= 0 {
+				at := start + 2 + i + 1
+				b = append(append(append([]byte{}, b[:at]...), []byte(ws)...), b[at:]...)
+			}
+		}
 	case "multi_sig":
 		// the armored signature holds several signature packets: the document's own ("good"), one made by k1 over
 		// another text ("unrelated"), one made by k1 over the EMPTY text ("empty"), one by k2 over this text ("k2good")
